@@ -16,6 +16,12 @@ def payload_sweep(ctx, execs):
             for k in range(1 if ctx.quick else 4):
                 items.append((p, {"seed": 140 + k, "ext": {q: ["SUCCEEDED", payload] for q in paths}, "max_inv": 12,
                                   "ext_order": "ext_first", "api_latency": [0.0, 0.3][k % 2]}))
+    # invoke results that are strings which themselves look like JSON (the default serdes must decode exactly once)
+    import json as _json
+    inv_prog = {"nodes": [{"k": "invoke"}, {"k": "step"}]}
+    for k, res in enumerate(["12345", "true", "null", "{\"status\": \"ok\"}", "[1, 2, 3]", "plain text", "\"quoted\"", 7, None, [1, "2"]]):
+        items.append((inv_prog, {"seed": 190 + k, "ext": {"1": ["SUCCEEDED", _json.dumps(res)]}, "max_inv": 8,
+                                 "ext_order": "ext_first", "api_latency": (0.0, 0.3)[k % 2]}))
     # the external party completes the callback WHILE the invocation that created it is still running (between create_callback and
     # result()), at every scheduling step of the code in between: the completion reaches the SDK in the answer of whichever
     # checkpoint call comes next (synchronous or fire-and-forget)
